@@ -80,10 +80,14 @@ func ZZ_C14_statusFn() {
 			condFailed = true
 			zzSetCond(rsB, datadoghqv1alpha1.ConditionTypeCanaryFailed, true, nondet.Base().Add(-time.Minute))
 		}
-		if nondet.Bool("rsB.pausedCond") {
+		switch nondet.String("rsB.pausedCond", "absent", "true", "false") {
+		case "true":
 			condPaused = true
 			zzSetCond(rsB, datadoghqv1alpha1.ConditionTypeCanaryPaused, true, nondet.Base().Add(-time.Minute))
 			rsB.Status.Conditions[len(rsB.Status.Conditions)-1].Reason = "CrashLoopBackOff"
+		case "false":
+			// left by a pause that was lifted: it says nothing about a pause by annotation
+			zzSetCond(rsB, datadoghqv1alpha1.ConditionTypeCanaryPaused, false, nondet.Base().Add(-time.Minute))
 		}
 		c.ERS = append(c.ERS, rsB)
 	}
